@@ -110,6 +110,60 @@ namespace vd
         }
     };
 
+    // register-granular Boolean helpers (family "bool", property C03): one register, N lanes, masks as N bytes 0/1.
+    // SRC selects how the batch_bool is manufactured: 0 = bool[] load, 1 = from_mask, 2 = result of a comparison.
+    template <class A, class T, int SRC>
+    struct WB : W<A, T>
+    {
+        using base = W<A, T>;
+        using B = typename base::B;
+        using BB = typename base::BB;
+        static constexpr int N = base::N;
+        static BB mk(const uint8_t* p)
+        {
+            if (SRC == 0)
+            {
+                bool tmp[N];
+                for (int i = 0; i < N; ++i)
+                    tmp[i] = p[i] != 0;
+                return BB::load_unaligned(tmp);
+            }
+            else if (SRC == 1)
+            {
+                uint64_t m = 0;
+                for (int i = 0; i < N; ++i)
+                    m |= (uint64_t)(p[i] != 0) << i;
+                return BB::from_mask(m);
+            }
+            else
+            {
+                alignas(64) T tmp[N];
+                for (int i = 0; i < N; ++i)
+                    tmp[i] = p[i] ? T(1) : T(0);
+                return B::load_aligned(tmp) != B(T(0));
+            }
+        }
+        template <class F>
+        static void bb1(const Args& a, Out& o, F f)
+        {
+            base::storemask(o.bytes, f(mk(a.in[0])));
+            o.len = N;
+        }
+        template <class F>
+        static void bb2(const Args& a, Out& o, F f)
+        {
+            base::storemask(o.bytes, f(mk(a.in[0]), mk(a.in[1])));
+            o.len = N;
+        }
+        template <class F>
+        static void bbq(const Args& a, Out& o, F f) // scalar query -> 8 bytes little endian
+        {
+            uint64_t v = (uint64_t)f(mk(a.in[0]));
+            st<uint64_t>(o.bytes, v);
+            o.len = 8;
+        }
+    };
+
     struct scalar_arch
     {
     };
@@ -210,4 +264,7 @@ namespace vd
 #define VD_SEL(NAME, EXPR) VD_E("sel", NAME, WT::ewm3(a, o, [](auto m, auto x, auto y) { return EXPR; }))
 #define VD_CMP1(NAME, EXPR) VD_E("cmp", NAME, WT::cmp1(a, o, [](auto x) { return EXPR; }))
 #define VD_CMP2(NAME, EXPR) VD_E("cmp", NAME, WT::cmp2(a, o, [](auto x, auto y) { return EXPR; }))
+#define VD_BB1(NAME, EXPR) VD_E("bb", NAME, WBT::bb1(a, o, [](auto p) { return EXPR; }))
+#define VD_BB2(NAME, EXPR) VD_E("bb", NAME, WBT::bb2(a, o, [](auto p, auto q) { return EXPR; }))
+#define VD_BBQ(NAME, EXPR) VD_E("bb", NAME, WBT::bbq(a, o, [](auto p) { return EXPR; }))
 #endif
